@@ -276,6 +276,42 @@ def pred_events(run):
     return events, meta
 
 
+# an expression is evaluated as often as the program reaches it: a comparison chain (and / or, membership) inside a
+# function, a loop or a comprehension gives, for every evaluation, the conjunction of ITS adjacent pairs - whatever
+# an earlier evaluation of the same expression did (stopped at its first pair, or ran to the end)
+REL = {"<": lambda a, b: a < b, "<=": lambda a, b: a <= b, ">": lambda a, b: a > b, ">=": lambda a, b: a >= b,
+       "==": lambda a, b: a == b, "!=": lambda a, b: a != b}
+TRIPLES = [(5, 1, 9), (2, 3, 4), (1, 1, 1), (4, 3, 2), (2, 3, 3), (1, 2, 0), (2 ** 64 + 1, 2 ** 64, 7), (0, 2 ** 64, 2 ** 64 + 1)]
+
+
+def repeated_chains(run):
+    it = Interpreter(True, False)
+    n = 0
+    ops = sorted(REL)
+    for o1 in ops:
+        for o2 in ops:
+            want = [REL[o1](a, b) and REL[o2](b, c) for a, b, c in TRIPLES]
+            want4 = [REL[o1](a, b) and REL[o2](b, c) and REL[o1](c, a) for a, b, c in TRIPLES]
+            args = ", ".join(f"[{a}, {b}, {c}]" for a, b, c in TRIPLES)
+            progs = [(f"def f(a, b, c) a {o1} b {o2} c; [f(t[0], t[1], t[2]) for t in [{args}]]", want),
+                     (f"def r = []; for t in [{args}] do append(r, t[0] {o1} t[1] {o2} t[2]) end; r", want),
+                     (f"[t[0] {o1} t[1] {o2} t[2] {o1} t[0] for t in [{args}]]", want4),
+                     (f"def r = []; def i = 0; def ts = [{args}]; while i < length(ts) do def t = ts[i]; "
+                      f"append(r, t[0] {o1} t[1] {o2} t[2]); i += 1 end; r", want)]
+            for src, w in progs:
+                n += 1
+                try:
+                    got = it.interpret(src, "c02")
+                    got_py = [bool(x.value) for x in got.value] if got.isList() else None
+                except Exception as e:  # noqa: BLE001
+                    got_py = f"{type(e).__name__}: {e}"[:80]
+                if got_py != w:
+                    run.violation("repeated-chain:" + src[:60] + f"|{o1}|{o2}",
+                                  f"chain-not-conjunction: {src!r} gives {got_py}, the conjunctions of the adjacent pairs are {w}",
+                                  {"kind": "repeated-chain"})
+    return n
+
+
 def run(run):
     quick = run.tier == "quick"
     rng = random.Random(run.seed)
@@ -298,7 +334,8 @@ def run(run):
     validate(run, "Pred_Trace", pev, pmeta, "Pred_Trace (is / is not)", "is-not-negation")
     run.sample({"pred_event": pev[7], "src": pmeta[7]})
     run.cov["traces_validated_against_impl"] = len(recs) + len(ev) + len(pev)
-    run.cov["evaluations"] = 2 * len(recs) + len(ev) + 2 * len(pev)
+    nrep = repeated_chains(run)
+    run.cov["evaluations"] = 2 * len(recs) + len(ev) + 2 * len(pev) + nrep
     run.cov["distinct_nontrivial"] = len(recs) + len(ev) + len(pev)
     run.cov["rule"] = ("distinct expression texts generated by Expr.tla (tree and value compared), distinct "
                        "big-int (a, op, b) events and distinct (value, predicate word) pairs validated by TLC")
@@ -314,6 +351,9 @@ def run(run):
 
 def replay(run, case):
     k = case["kind"]
+    if k == "repeated-chain":
+        repeated_chains(run)
+        return
     if k == "expr":
         check_expr(run, Interpreter(True, False), case["rec"])
     elif k in ("exact-arithmetic",):
